@@ -30,6 +30,10 @@ What is proved here:
   the stored clone is released exactly once iff some release attempt runs.  `midElement_unlocked_clone_rejected`:
   the same system with the clone moved out of the critical section (seeded shape C12-A) has a rejected schedule.
 
+* `Props/C12Paths.lean` (second module of this check) — path programs of the observation callbacks and of the block-wise
+  layer (`Model/OwnershipPaths.lean`): `linear_ok`, `obs_ok`, `bw_ok`, `linear_conservation`, `obs_released_once`,
+  `bw_released_once`, `accepted_rel_le_acq` and four negative theorems.
+
 What is not proved (hence partial): that the Go code follows exactly these path programs / this transition system on
 every schedule — this is observed, not proved: hook h1 records the real acquire/release trace of every scenario the
 harness runs and the monitor validates it (`traces_validated_against_impl`); reads after release by the real code are
